@@ -444,12 +444,13 @@ def c15():
                 q = "quick" if mr in owned_q.get((c, r), []) else "thorough"
                 add("C15", f"c15_translate_owned_{c}x{r}_mr{mr}", f"c15::translate(0, {c}, {r}, 0, 0, {c}, {r}, {mr})", max(c, r) + 3, q,
                     stubs=[ROTATE_STUB], also=["C01"] if q == "quick" and (c, r) == (3, 3) and mr == 1 else [])
-    wins = {"interior2x2": (1, 1, 3, 3), "right2x3": (2, 1, 4, 4), "top4x1": (0, 0, 4, 1), "col1x4": (1, 0, 2, 4), "bottomleft3x2": (0, 2, 3, 4), "mid2x4": (1, 0, 3, 4)}
+    wins = {"interior2x2": (1, 1, 3, 3), "right2x3": (2, 1, 4, 4), "top4x1": (0, 0, 4, 1), "col1x4": (1, 0, 2, 4), "bottomleft3x2": (0, 2, 3, 4), "mid2x4": (1, 0, 3, 4), "right3x4": (1, 0, 4, 4)}
     for nm, (sc, sr, ec, er) in wins.items():
         h = er - sr
         for mr in range(0, h + 1):
-            # mid2x4 with mr=2: gcd(4, 2) = 2 row cycles, so a base row other than 0 gets the final rotate
-            q = "quick" if (nm == "interior2x2" and mr == 1) or (nm == "right2x3" and mr in (1, 2)) or (nm == "top4x1" and mr == 0) or (nm == "mid2x4" and mr == 2) else "thorough"
+            # right3x4 with mr=2: gcd(4, 2) = 2 row cycles, so a base row other than 0 gets the final rotate, and with
+            # 3 columns the accumulated column shift of that cycle is not 0
+            q = "quick" if (nm == "interior2x2" and mr == 1) or (nm == "right2x3" and mr in (1, 2)) or (nm == "top4x1" and mr == 0) or (nm == "right3x4" and mr == 2) else "thorough"
             add("C15", f"c15_translate_view_{nm}_mr{mr}", f"c15::translate(1, 4, 4, {sc}, {sr}, {ec}, {er}, {mr})", 7, q, stubs=[ROTATE_STUB], also=["C04"] if q == "quick" else [])
     add("C15", "c15_translate_mini_interior2x2_mr1", "c15::translate(2, 4, 4, 1, 1, 3, 3, 1)", 7, "thorough", stubs=[ROTATE_STUB])
     for which in (0, 1, 2):
@@ -627,8 +628,8 @@ def engb():
     for w in (0, 1, 2):
         add("C09", f"b_col_index_{w}", f"engb::b_col_index({w})", 1, "native", kind="panic")
     for recv in (0, 1, 2):
-        for acc in range(6):
-            if recv == 1 and acc >= 3:
+        for acc in range(10):
+            if recv == 1 and acc in (3, 4, 5, 8, 9):
                 continue
             add("C02", f"b_access_r{recv}_a{acc}", f"engb::b_access({recv}, {acc})", 1, "native", kind="panic")
     for parent in (0, 1):
